@@ -3,6 +3,7 @@ package checks
 import (
 	"context"
 	"fmt"
+	"reflect"
 	"runtime"
 	"sync"
 	"sync/atomic"
@@ -82,4 +83,117 @@ func c11Concurrent(rep *vk.Report, idx int) {
 	}
 	rep.Count("concurrent_cache_rounds", 1)
 	rep.Distinct(fmt.Sprintf("conc|%d|%d|%d", nkeys, g, len(pols)))
+}
+
+// typedCache is a map-backed cachepolicy.Cache for any result type; an entry whose value is the zero value (nil
+// interface, nil pointer, empty string...) is an entry like any other.
+type typedCache[R any] struct {
+	mu         sync.Mutex
+	m          map[string]R
+	gets, sets int
+}
+
+func (c *typedCache[R]) Get(key string) (R, bool) {
+	c.mu.Lock()
+	defer c.mu.Unlock()
+	c.gets++
+	v, ok := c.m[key]
+	return v, ok
+}
+
+func (c *typedCache[R]) Set(key string, value R) {
+	c.mu.Lock()
+	defer c.mu.Unlock()
+	c.sets++
+	c.m[key] = value
+}
+
+type c11Iface interface{ M() }
+type c11Ptr struct{ n int }
+
+// c11ResultTypes: the hit rule for result types whose values include nil/zero ones: an entry holding a nil interface, a nil
+// pointer, a nil slice or map, "" or 0 is still an entry. Every key is executed (or preloaded) once and then executed
+// again: the second execution must be a hit - function not invoked, cached value returned, hit event and no miss event.
+func c11ResultTypes(rep *vk.Report, idx int) {
+	r := vk.Rng(rep.Seed, "C11t", idx)
+	switch r.IntN(8) {
+	case 0:
+		c11Typed[any](rep, idx, r, "any", []any{nil, 0, "", "x", (*c11Ptr)(nil), []int(nil)})
+	case 1:
+		c11Typed[error](rep, idx, r, "error", []error{nil, errE1})
+	case 2:
+		c11Typed[*c11Ptr](rep, idx, r, "*struct", []*c11Ptr{nil, {n: 1}})
+	case 3:
+		c11Typed[[]int](rep, idx, r, "[]int", [][]int{nil, {}, {1}})
+	case 4:
+		c11Typed[map[string]int](rep, idx, r, "map", []map[string]int{nil, {}, {"a": 1}})
+	case 5:
+		c11Typed[string](rep, idx, r, "string", []string{"", "v"})
+	case 6:
+		c11Typed[c11Iface](rep, idx, r, "interface", []c11Iface{nil})
+	default:
+		c11Typed[struct{}](rep, idx, r, "struct{}", []struct{}{{}})
+	}
+}
+
+func c11Typed[R any](rep *vk.Report, idx int, r interface{ IntN(int) int }, tname string, vals []R) {
+	cache := &typedCache[R]{m: map[string]R{}}
+	var hits, misses, cached atomic.Int64
+	pol := cachepolicy.Builder[R](cache).
+		OnCacheHit(func(failsafe.ExecutionDoneEvent[R]) { hits.Add(1) }).
+		OnCacheMiss(func(failsafe.ExecutionEvent[R]) { misses.Add(1) }).
+		OnResultCached(func(failsafe.ExecutionEvent[R]) { cached.Add(1) }).Build()
+	var innerCalls atomic.Int64
+	pols := []failsafe.Policy[R]{pol}
+	if r.IntN(2) == 0 {
+		pols = append(pols, retrypolicy.Builder[R]().WithMaxRetries(1).Build())
+	}
+	for round := 0; round < 4; round++ {
+		v := vals[r.IntN(len(vals))]
+		key := fmt.Sprintf("k%d", round)
+		ctx := context.WithValue(context.Background(), cachepolicy.CacheKey, key)
+		ex := failsafe.NewExecutor[R](pols...).WithContext(ctx)
+		how := r.IntN(3) // 0: preloaded, 1: stored by Get, 2: stored by Run (any result type: the zero value is what gets stored)
+		var stored R
+		switch how {
+		case 0:
+			cache.Set(key, v)
+			stored = v
+		case 1:
+			got, err := ex.Get(func() (R, error) { innerCalls.Add(1); return v, nil })
+			if err != nil || !reflect.DeepEqual(got, v) {
+				rep.Violate(idx, "C11/typed-miss-result", fmt.Sprintf("result type %s: first execution returned (%#v,%v), function returned (%#v,nil)", tname, got, err, v), nil)
+				return
+			}
+			stored = v
+		case 2:
+			if err := ex.Run(func() error { innerCalls.Add(1); return nil }); err != nil {
+				rep.Violate(idx, "C11/typed-miss-result", fmt.Sprintf("result type %s: Run returned %v", tname, err), nil)
+				return
+			}
+		}
+		if got, ok := cache.m[key]; !ok || !reflect.DeepEqual(got, stored) {
+			rep.Violate(idx, "C11/typed-not-stored", fmt.Sprintf("result type %s: after an error-free execution (how=%d) the cache holds (%#v, present=%v) under %q, want %#v", tname, how, got, ok, key, stored), nil)
+			return
+		}
+		h0, m0, c0, s0, calls0 := hits.Load(), misses.Load(), innerCalls.Load(), cache.sets, innerCalls.Load()
+		_ = c0
+		var got R
+		var err error
+		var invoked bool
+		if r.IntN(2) == 0 {
+			got, err = ex.Get(func() (R, error) { invoked = true; return vals[len(vals)-1], nil })
+		} else {
+			err = ex.Run(func() error { invoked = true; return nil })
+			got = stored
+		}
+		rep.Eval()
+		cs := map[string]any{"result_type": tname, "stored": fmt.Sprintf("%#v", stored), "how": how}
+		if invoked || err != nil || !reflect.DeepEqual(got, stored) || hits.Load() != h0+1 || misses.Load() != m0 || cache.sets != s0 || innerCalls.Load() != calls0 {
+			rep.Violate(idx, "C11/entry-with-zero-value-not-a-hit", fmt.Sprintf("result type %s: the cache holds %#v under %q (how=%d), the next execution with that key: function invoked=%v, returned (%#v,%v), hit events +%d, miss events +%d, cache sets +%d", tname, stored, key, how, invoked, got, err, hits.Load()-h0, misses.Load()-m0, cache.sets-s0), cs)
+			return
+		}
+		rep.Count("typed_cache_hits_checked", 1)
+		rep.Distinct(fmt.Sprintf("typed|%s|%#v|%d|%d", tname, stored, how, len(pols)))
+	}
 }
